@@ -65,7 +65,15 @@ func (c *Ctx) add(status, rule, construct, where, detail string) {
 	if c.focus != nil {
 		keep := false
 		for _, f := range c.focus {
-			if strings.Contains(rule, f) {
+			if i := strings.Index(f, "|"); i >= 0 { // rule fragment | construct fragment
+				if strings.Contains(rule, f[:i]) && strings.Contains(construct, f[i+1:]) {
+					keep = true
+				}
+			} else if strings.HasPrefix(f, "=") { // the rule of exactly that name
+				if rule == f[1:] {
+					keep = true
+				}
+			} else if strings.Contains(rule, f) {
 				keep = true
 			}
 		}
